@@ -43,7 +43,7 @@ theorem C04_tie_get_subperiods (p : Period) (u : DUnit) :
 
 -- non-vacuity: the generated functions compute something
 example : Guards.period_size_in_months ⟨.year, ⟨2020, 1, 1⟩, 2⟩ = .ok 24 := by
-  simp [Guards.period_size_in_months, bind, Except.bind]
+  simp [Guards.period_size_in_months, Period.sizeInMonths, bind, Except.bind]
 example : Guards.period_size_in_years ⟨.month, ⟨2020, 1, 1⟩, 2⟩ = .error "value" := by
-  simp [Guards.period_size_in_years]
+  simp [Guards.period_size_in_years, Period.sizeInYears]
 end OFCore
